@@ -24,7 +24,7 @@ def parse(text, kind):
     return split(lines[0]), [split(l) for l in lines[1:]]
 
 
-def sig_close(want, got, sig):
+def sig_close(want, got, sig, rtol=0.0):
     if want == "undef":
         return math.isnan(got) or math.isinf(got)
     if math.isnan(want):
@@ -36,7 +36,7 @@ def sig_close(want, got, sig):
     if want == 0:
         return abs(got) <= 1e-9
     unit = 10.0 ** (math.floor(math.log10(abs(want))) - (sig - 1))
-    return abs(want - got) <= 0.5 * unit * 1.02 + 1e-12
+    return abs(want - got) <= 0.5 * unit * 1.02 + 1e-12 + rtol * abs(want)      # rtol: scores the program computes in single precision
 
 
 def desc_matches(desc, cells):
@@ -78,7 +78,7 @@ def named_location_cells(desc, names, cells):
     return None
 
 
-def compare(expected_rows, legend, header, rows, sig, axis):
+def compare(expected_rows, legend, header, rows, sig, axis, rtol=0.0):
     """expected_rows: list of {desc, scores(Expr)}; returns list of messages"""
     n = len(legend)
     msgs = []
@@ -113,6 +113,6 @@ def compare(expected_rows, legend, header, rows, sig, axis):
             except ValueError:
                 msgs.append("row %d column %d: not a number: %r" % (k + 1, i + 1, row[len(row) - n + i]))
                 continue
-            if not sig_close(want, got, sig):
+            if not sig_close(want, got, sig, rtol):
                 msgs.append("row %d column %d: expected %r printed %r" % (k + 1, i + 1, want, row[len(row) - n + i]))
     return msgs
